@@ -147,7 +147,8 @@ func checkC14(r *Result) {
 					return strings.HasSuffix(c.Callee, "BankKeeper.SendCoinsFromModuleToAccount") && strings.HasPrefix(NewTermer().Of(Arg(c.Instr, 2)).Op, "param:4:")
 				}, T)},
 				{Name: "tipPositive", Stable: true, Cond: func(rel *Term) (bool, bool) {
-					if !rel.Contains("DecodeDepositReportValue") {
+					// the receiver is the decoded tip itself (third result of the decoder), not a value derived from it
+					if len(rel.Args) != 1 || rel.Args[0].Op != "ext:2" || !rel.Args[0].Contains("DecodeDepositReportValue") {
 						return false, false
 					}
 					switch {
